@@ -107,7 +107,7 @@ func vSameEntries(a, b []vLEntry) bool {
 // VerifC04_Removal: Rm / RemoveWithContext / CleanDir on every tree shape.
 func VerifC04_Removal() {
 	lfs := newLinkFs()
-	shape := vC04Populate(lfs)
+	_ = vC04Populate(lfs)
 	fs := NewVirtualFileSystem(lfs, InMemoryFS, IdentityPathConverterFunc)
 	before := vOutsideOf(lfs.snapshot())
 	ctx := context.Background()
@@ -127,8 +127,7 @@ func VerifC04_Removal() {
 	}
 	verif.Observe("failed", err != nil)
 	after := lfs.snapshot()
-	verif.AssertKnown("nothing_outside_the_tree_is_touched", vSameEntries(before, vOutsideOf(after)),
-		"KF-C04-link-to-outside-directory-is-followed", shape.hasLinkToOutsideDir)
+	verif.Assert("nothing_outside_the_tree_is_touched", vSameEntries(before, vOutsideOf(after)))
 	if err == nil {
 		left := 0
 		for _, e := range after {
@@ -138,8 +137,7 @@ func VerifC04_Removal() {
 		}
 		rootLeft := lfs.nodes["/s/t"] != nil
 		gone := left == 0 && (op == 2 || !rootLeft)
-		verif.AssertKnown("success_means_the_tree_is_gone", gone,
-			"KF-C04-links-survive-a-successful-removal", shape.hasLink)
+		verif.Assert("success_means_the_tree_is_gone", gone)
 		if op == 2 {
 			verif.Assert("clean_keeps_the_directory_itself", rootLeft)
 		}
